@@ -26,7 +26,7 @@ VARIABLES l,      \* next line
           viol, drift
 vars == <<l, s, l1, mon, blk, mp, prev, rolled, tampered, hsin, viol, drift>>
 
-NoCfg  == [maxh |-> 0, txs |-> << >>, vu |-> << >>, pu |-> << >>, retain |-> << >>, hashc |-> TRUE]
+NoCfg  == [maxh |-> 0, txs |-> << >>, vu |-> << >>, pu |-> << >>, retain |-> << >>, hashc |-> TRUE, ih |-> 1]
 MpInit == [locked |-> FALSE, flushed |-> FALSE]
 Post0  == [bs_h |-> 0, bs_base |-> 0, ss_saved |-> FALSE, ss_h |-> 0, ss_hash |-> Hash0, ss_last |-> 0,
            app_h |-> 0, app_hash |-> Hash0, wal_end |-> 0]
@@ -60,9 +60,9 @@ Exp(op, k, h, i) == [op |-> op, k |-> k, h |-> h, i |-> i]
 Expected(x) ==
   CASE x.pc = "HS_Info"          -> Exp("abci", "Info", 0, 0)
     [] x.pc = "HS_InitChain"     -> Exp("abci", "InitChain", 0, 0)
-    [] x.pc = "HS_SaveGenVals1"  -> Exp("db", "ss:vals", 1, 0)
-    [] x.pc = "HS_SaveGenVals2"  -> Exp("db", "ss:vals", 2, 0)
-    [] x.pc = "HS_SaveGenParams" -> Exp("db", "ss:params", 1, 0)
+    [] x.pc = "HS_SaveGenVals1"  -> Exp("db", "ss:vals", x.cfg.ih, 0)
+    [] x.pc = "HS_SaveGenVals2"  -> Exp("db", "ss:vals", x.cfg.ih + 1, 0)
+    [] x.pc = "HS_SaveGenParams" -> Exp("db", "ss:params", x.cfg.ih, 0)
     [] x.pc = "HS_SaveGenState"  -> Exp("db", "ss:state", 0, 0)
     [] x.pc \in {"EC_Begin", "AB_Begin"}     -> Exp("abci", "BeginBlock", x.h, 0)
     [] x.pc \in {"EC_Deliver", "AB_Deliver"} -> Exp("abci", "DeliverTx", x.h, x.i)
@@ -111,14 +111,14 @@ IsJournalOp(e) == e.ev = "Op" /\ e.op = "abci" /\ e.k \in {"InitChain", "BeginBl
 \* Which row of ReplayBlocks' outcome table (as repaired) the last Handshake was faced with; used to
 \* tell violations apart that only arise from cursors no crash of this node can produce.
 HsTag == IF hsin.bs_h = 0 THEN "empty_store"
-         ELSE HandshakeCase(hsin.bs_h, hsin.bs_base, hsin.ss_h, hsin.app_h)
+         ELSE HandshakeCase(s.cfg.ih, hsin.bs_h, hsin.bs_base, hsin.ss_h, hsin.app_h)
 Tagged(class) == IF tampered THEN class \o "@" \o HsTag ELSE class
 
 CursorClass(p) == IF tampered THEN ""
-                  ELSE IF p.bs_h \notin {p.ss_h, p.ss_h + 1} THEN "store_vs_state"
+                  ELSE IF p.bs_h \notin {p.ss_h, NextH(s.cfg, p.ss_h)} THEN "store_vs_state"
                   ELSE IF p.app_h > p.bs_h THEN "app_ahead_of_store"
                   ELSE IF p.app_h < p.ss_h /\ ~rolled THEN "state_ahead_of_app"
-                  ELSE IF p.app_h > p.ss_h + 1 THEN "app_two_ahead_of_state" ELSE ""
+                  ELSE IF p.app_h > NextH(s.cfg, p.ss_h) THEN "app_two_ahead_of_state" ELSE ""
 
 \* invariants on a logged projection, checked after every line; a failure is reported at the
 \* step that breaks the invariant (not again on every later line while the state stays broken)
@@ -130,7 +130,7 @@ PostViol(p) == {V(x[1], x[2]) : x \in PostBad(p) \ PostBad(prev)}
 \* ------------------------------------------------------------------ steps
 StepReset(e) ==
   /\ s' = InitState(e.cfg)
-  /\ l1' = TRUE /\ mon' = MonInit /\ blk' = << >> /\ mp' = MpInit
+  /\ l1' = TRUE /\ mon' = MonInitOf(e.cfg.ih) /\ blk' = << >> /\ mp' = MpInit
   /\ viol' = viol \cup PostViol(e.post)
   /\ UNCHANGED drift
 
@@ -208,7 +208,10 @@ StepFailed(e) ==
   /\ l1' = FALSE
   /\ drift' = drift \cup FailIf(l1 /\ ~ok, D(e.ev \o " (" \o e.msg \o ") is not predicted by the spec", x))
   \* a node that refuses to start on cursors an operator made inconsistent does the right thing
-  /\ viol' = viol \cup FailIf(~tampered, V("Progress", e.ev \o ":" \o e.msg)) \cup PostViol(e.post)
+  /\ viol' = viol \cup FailIf(~tampered, V("Progress", e.ev \o ":" \o e.msg \o
+                                        \* the chain starts above height 1 and its first block is stored but not applied
+                                        (IF s.cfg.ih > 1 /\ hsin.ss_h = 0 /\ hsin.bs_h > 0 THEN "@first_block_above_height_1" ELSE "")))
+              \cup PostViol(e.post)
   /\ UNCHANGED <<mon, blk, mp>>
 
 StepCatchup(e) ==
